@@ -35,11 +35,15 @@ def gen_case(rng, tier, avoid):
     used = set()
     nfr = rng.choice([1, 1, 2])
     rows = rng.choice([1, 2, 3, 5, 8, 13, 21, rng.randint(1, 64)])
+    if rng.random() < 0.06:
+        rows = rng.choice([127, 128, 129, 130, 200])           # frame numbers across the 1-byte / 2-byte UVARI boundary
+    if rng.random() < (0.003 if tier == 'thorough' else 0.0015):
+        rows = rng.choice([16383, 16384, 16385, 16390])          # ... and across the 2-byte / 4-byte boundary
     own_sets = nfr > 1 and rng.random() < 0.4
     fused = set()
     for k in range(nfr):
         gen.frame_block(spec, lfi, rng, rows=rows if rng.random() < 0.7 else None, used=set() if own_sets else used,
-                        max_width=rng.choice([4, 12, 48]), index=rng.random() < 0.3, set_name='FS%d' % k if own_sets else None,
+                        max_width=rng.choice([4, 12, 48]) if rows < 1000 else 2, index=rng.random() < 0.3, set_name='FS%d' % k if own_sets else None,
                         frame_used=fused)
     # special values and casts
     for op in spec.ops:
